@@ -160,7 +160,12 @@ class EvioNestSuite(EvioSuite):
 
     def coq_input(self, case):
         enabled = case["ev_verb"] <= case["VERB"]
-        pws = coq.lst(lambda nw: f"({s2l(self.pfx(nw[0], case['prefix']))}, {s2l(nw[1])})", list(zip(case["nests"], case["writes"])), "(list N * list N)")
+        items = [[self.pfx(n, case["prefix"]), w] for n, w in zip(case["nests"], case["writes"])]
+        if case.get("msg_rest") is not None:
+            # the rest of a multi-line message is written by the constructor (before ev.prefix can be set)
+            n0 = case["nests"][0] if case["nests"] else case["close_nest"]
+            items.insert(0, [self.pfx(n0, None), case["msg_rest"] + "\n"])
+        pws = coq.lst(lambda pw: f"({s2l(pw[0])}, {s2l(pw[1])})", items, "(list N * list N)")
         return f"({coq.boolean(enabled)}, {s2l(self.pfx(case['close_nest'], case['prefix']))}, {pws})"
 
     def run(self, case):
@@ -173,10 +178,11 @@ class EvioNestSuite(EvioSuite):
             tbot.log.IS_COLOR = False
             tbot.log.LOGFILE = None
             with contextlib.redirect_stdout(out):
-                ev = tbot.log.EventIO(["verif"], "header", verbosity=tbot.log.Verbosity(case["ev_verb"]))
+                msg = "header" if case.get("msg_rest") is None else "header\n" + case["msg_rest"]
+                ev = tbot.log.EventIO(["verif"], msg, verbosity=tbot.log.Verbosity(case["ev_verb"]))
                 if case["prefix"] is not None:
                     ev.prefix = case["prefix"]
-                header_len = len(out.getvalue())
+                header_len = out.getvalue().find("header") + len("header\n") if case["ev_verb"] <= case["VERB"] else 0
                 for n, w in zip(case["nests"], case["writes"]):
                     tbot.log.NESTING = n
                     ev.write(w)
@@ -196,22 +202,26 @@ class EvioNestSuite(EvioSuite):
             base = rng.choice([0, 1, 2])
             nests = [max(0, base + rng.choice([0, 0, 1, -1, 2])) for _ in range(k)]
             yield {"writes": ws, "nests": nests, "close_nest": rng.choice(nests + [base]), "ev_verb": rng.choice([1, 3, 4]), "VERB": rng.choice([3, 3, 4]),
-                   "prefix": rng.choice([None, None, "# "])}
+                   "prefix": rng.choice([None, None, "# "]),
+                   "msg_rest": rng.choice([None, None, "second line", "second\nthird\nfourth", "2\n\n4", ""])}
 
     def oracle(self, case, obs):
         fails = []
         stored, printed, header = obs
         if case["ev_verb"] > case["VERB"]:
             return [f"event above the verbosity level printed {header + printed!r}"] if (printed or header) else []
-        if stored != "".join(w.replace("\r\n", "\n").replace("\n\r", "\n") for w in case["writes"]):
-            fails.append(f"stored text {stored!r} is not the concatenation of the writes")
+        items = [[n, case["prefix"], w] for n, w in zip(case["nests"], case["writes"])]
+        if case.get("msg_rest") is not None:
+            items.insert(0, [case["nests"][0] if case["nests"] else case["close_nest"], None, case["msg_rest"] + "\n"])
+        if stored != "".join(w.replace("\r\n", "\n").replace("\n\r", "\n") for _, _, w in items):
+            fails.append(f"stored text {stored!r} is not the concatenation of the rest of the message and the writes")
         # every character once; at every line start the prefix in force while that write is printed
         exp, nl, pos = "", True, 0
-        for n, w in zip(case["nests"], case["writes"]):
+        for n, upfx, w in items:
             w = w.replace("\r\n", "\n").replace("\n\r", "\n")
             for ch in w:
                 if nl:
-                    exp += self.pfx(n, case["prefix"])
+                    exp += self.pfx(n, upfx)
                     nl = False
                 if ch in "\r\n":
                     nl = True
